@@ -158,10 +158,14 @@ func New(startTime time.Time, logLevel slog.Level) *Handler {
 	// Galileo keeps GPS time.
 	startOfGalileoWeek := startOfGPSWeek
 
-	// Set the stored timestamps to match the start time.
-	timestampFromPreviousGPSMessage := (uint(startTime.Sub(startOfGPSWeek).Milliseconds()))
-	timestampFromPreviousGalileoMessage := timestampFromPreviousGPSMessage
-	timestampFromPreviousBeidouMessage := (uint(startTime.Sub(startOfBeidouWeek).Milliseconds()))
+	// The stored timestamps start at zero, the start of the week.  (The start
+	// time only identifies the week.  The first message may have been sent
+	// earlier in that week than the start time, so the start time must not
+	// be taken as the time of a previous message - that would make the first
+	// message look like a rollover into the next week.)
+	var timestampFromPreviousGPSMessage uint = 0
+	var timestampFromPreviousGalileoMessage uint = 0
+	var timestampFromPreviousBeidouMessage uint = 0
 
 	handler := Handler{
 		startOfGPSWeek:                      startOfGPSWeek,
